@@ -125,7 +125,7 @@ def correspond_c20(tier, impl_only=False):
     cand = [c for c in acc if not p_runtime.has_cfg(c) and not p_runtime.wo_field(c)][:nmac]
     if cand:
         d = os.path.join(WORK, prop, "macro")
-        defs = os.path.join(d, "defs")
+        defs = os.path.join(d, "probe", "defs")     # the crate root is <d>/probe; rustc runs in <d>
         mods, fns, pairs_ = [], [], []
         shutil.rmtree(d, ignore_errors=True)
         for k, c in enumerate(cand):
@@ -147,11 +147,16 @@ def correspond_c20(tier, impl_only=False):
             pairs_.append((c, a, lines_m, lines_l, how))
         extra = rtprobe.MOCK_RS + "\n" + "\n".join(fns) + "\npub fn run_all() {\n" + "\n".join(f"    run_{m}();" for m, _ in mods) + "\n}\n"
         main_rs = "fn main() { std::panic::set_hook(Box::new(|_| {})); ddv_probe::run_all(); }\n"
-        probe.write_crate(d, mods, no_std=False, extra_lib=extra, bin_main=main_rs, dd_features=["dsl", "json", "yaml", "toml"])
+        probe.write_crate(d, mods, no_std=False, extra_lib=extra, bin_main=main_rs, dd_features=["dsl", "json", "yaml", "toml"], member=True)
         os.makedirs(defs, exist_ok=True)
+        decoys = os.path.join(d, "defs")            # same relative path under the compiler's working directory
+        os.makedirs(decoys, exist_ok=True)
         for c in cand:
-            with open(os.path.join(defs, "m%d.%s" % (c["id"], EXT[c["syntax"]])), "w") as f:
+            fn = "m%d.%s" % (c["id"], EXT[c["syntax"]])
+            with open(os.path.join(defs, fn), "w") as f:
                 f.write(runs[0][c["id"]]["source"])
+            with open(os.path.join(decoys, fn), "w") as f:
+                f.write("this file is not the crate's manifest: relative paths are relative to the crate root\n")
         okb, errors, out, stderr = probe.cargo_check(d, run=True)
         if not okb:
             macro_err = {m: e for m, e in errors.items() if m.startswith("mac_")}
